@@ -65,10 +65,10 @@ def classify_roundtrip(t, v, codec_name, defMode):
     indef = codec_name == 'cer' or (codec_name == 'ber' and not defMode)
     if indef and wire.e1_applies(t, v):
         return 'E1-stray-eoo'
-    if t4a_applies(t, v):
-        return 'T4a-empty-record-ambiguity'
     if codec_name in ('cer', 'der') and e3_applies(t, v):
         return 'E3-empty-optional-omitted'
+    if t4a_applies(t, v):
+        return 'T4a-empty-record-ambiguity'
     return None
 
 
